@@ -142,7 +142,16 @@ Definition atof (s : str) : dbl :=
   | _, _ => nearest_double neg (value_of_digits 0 (ip ++ fp)) (10 ^ Z.of_nat (length fp))
   end.
 
-(** * NumberToDOMString(double) *)
+(** * NumberToDOMString(double) / NumberToCharacters(double): the shared DoubleToCharacters *)
+
+(* the loop over thePrintfStrings: the first precision of the table whose output reads back equal *)
+Fixpoint try_table (x : dbl) (ps : list nat) : option str :=
+  match ps with
+  | [] => None
+  | p :: r =>
+      let b := printf_f p x in
+      if d_eqb (atof b) x then Some b else try_table x r
+  end.
 
 (* first precision whose output reads back equal; the last one tried if none does *)
 Fixpoint try_precisions (x : dbl) (ps : list nat) (last : str) : str :=
@@ -151,6 +160,30 @@ Fixpoint try_precisions (x : dbl) (ps : list nat) (last : str) : str :=
   | p :: r =>
       let b := printf_f p x in
       if d_eqb (atof b) x then b else try_precisions x r b
+  end.
+
+(* frexp(x, &e): |x| = f * 2^e with 1/2 <= f < 1 *)
+Definition frexp_exponent (x : dbl) : Z :=
+  match x with
+  | S754_finite _ m e => Zpos (digits2_pos m) + e
+  | _ => 0
+  end.
+
+(* "thePrecision = (-theExponent - 1) * 3 / 10 + 1", raised to the precision after the table's last;
+   C's integer division truncates *)
+Definition ext_start (x : dbl) : nat :=
+  Z.to_nat (Z.max (Z.of_nat printf_last_table_precision + 1)
+                  (Z.quot ((- frexp_exponent x - 1) * printf_start_num) printf_start_den + 1)).
+
+(* the "%.*f" loop: thePrecision, thePrecision + 1, ... ; it stops after the first precision
+   >= MAX_FRACTION_DIGITS *)
+Definition ext_precisions (x : dbl) : list nat :=
+  let p0 := ext_start x in p0 :: seq (S p0) (printf_max_precision - p0).
+
+Definition double_to_characters (x : dbl) : str :=
+  match try_table x printf_precisions with
+  | Some b => b
+  | None => try_precisions x (ext_precisions x) []
   end.
 
 Fixpoint strip_trailing_zeros_rev (r : str) : str :=
@@ -193,11 +226,11 @@ Definition number_to_string (x : dbl) : str :=
   | S754_finite _ _ _ =>
       match as_int64 x with
       | Some v => int_to_string v
-      | None => trim_number (try_precisions x printf_precisions [])
+      | None => trim_number (double_to_characters x)
       end
   end.
 
-(* bytes sprintf writes (including the terminating NUL) for the largest precision *)
+(* bytes sprintf writes (including the terminating NUL) *)
 Definition printf_bytes (p : nat) (x : dbl) : nat := S (length (printf_f p x)).
 
 (** * DoubleSupport::toDouble *)
